@@ -57,9 +57,9 @@ CHECKS = {
  "C15": ("small-scope program enumeration (E1): every <=k-rule program of pools G,R,N,B x EDBs; every stored fact is explained post-hoc and from a recording; every proof validated by an independent proof checker; identifier/content bijection; recorder on/off store equality",
          "bounded-exhaustive: for every program/EDB in scope and EVERY fact of the evaluated store, the returned proofs are re-checked literal by literal (head and body re-instantiated from the reported bindings, leaves against store and base facts, no fact its own ancestor) and a complete proof is demanded for transform-free programs",
          "independent checker in verifmc; missing/partial proofs for goals that depend on recursive predicates are the known finding F9 (memoisation under a cycle cut) and attributed only then", "4 C15"),
- "C05": ("exhaustive enumeration of presentations (E1) of each base program: clause orders, fact orders, variable and predicate renamings, package wrapping, store kinds, deterministic-order option; differential comparison of canonical results (hash-map iteration order additionally sampled by repeated runs)",
+ "C05": ("exhaustive enumeration of presentations (E1) of each base program: clause orders, fact orders, variable and predicate renamings, package wrapping, store kinds, deterministic-order option; differential comparison of canonical results; plus environment-deviation exploration (E3) of hash-map iteration order: every range-over-map of the repository is rewritten at build time (overlay generated from the working tree) to iterate in an order the explorer chooses - 4 global modes and every single-point deviation are executed",
          "bounded-exhaustive over the presentation dimensions for ~1400 (quick) base programs from pools G, N, A and temporal chains: every variant is evaluated by the real pipeline and must give the reference variant's canonical fact set (temporal facts with intervals)",
-         "the Go runtime's map iteration order is not enumerated by this check (re-runs sample it); order-sensitive reducers are excluded; collected lists compared as multisets", "4 C05"),
+         "map iteration order is explorer-owned in the vmap build (bin/mcv): default answer = keys sorted by printed form, deviations = reversed / rotated orders globally and at each single dynamic range execution; two simultaneous deviations are not explored; order-sensitive reducers are excluded; collected lists compared as multisets", "4 C05"),
  "C18": ("controlled-scheduler interleaving search (E4): the real ConcurrentFactStore over a stepped base under a cooperative scheduler injected by rewriting package sync at build time; every schedule up to a preemption bound, each history checked for linearizability by brute force; sync.Pool answers and parallel pipelines explored the same way; plus an auxiliary free-running -race pass",
          "bounded-exhaustive over schedules: 2 threads x 1-2 operations (3 threads x 1 in thorough) x initial states, all interleavings of lock operations and base-store steps with <= 2 preemptions (unbounded for 2 threads in thorough); deadlock = no enabled thread; every recorded history must have a linearization against a set model",
          "scheduling points are the sync shim's operations plus explicit steps of the harness's base store; data races are outside what a cooperative scheduler can see and are covered by a separate sampled `go test -race` pass (listed separately in the evidence)", "4 C18"),
@@ -90,8 +90,8 @@ m = {
  "version": 1,
  "setup_cmd": "./check setup",
  "hooks": {
-  "guard": "verif-overlay: no source change is committed to /repo; instrumentation is applied at build time through go build -overlay: mc/seam/interp_hook.go is ADDED to package interpreter (all checks); for C18 only, the import of package sync in factstore/factstore.go, parse/parse.go and ast/temporal.go is rewritten (from the current working-tree files) to the shim mc/seam/vsync, which behaves exactly like sync when no scheduler is active",
-  "enable": "./check builds /verif/mc against /repo's working tree via a go.mod replace directive with -overlay mc/overlay.json (C18: -tags vsync -overlay mc/overlay18.json), both generated by ./check from the working tree",
+  "guard": "verif-overlay: no source change is committed to /repo; instrumentation is applied at build time through go build -overlay: mc/seam/interp_hook.go is ADDED to package interpreter (all checks); for C18 only, the import of package sync in factstore/factstore.go, parse/parse.go and ast/temporal.go is rewritten (from the current working-tree files) to the shim mc/seam/vsync, which behaves exactly like sync when no scheduler is active; for C05 only (build tag vmap), cmd/overlaygen rewrites every `range m` over a map in non-test repository files to `range vmap.Range(m)` (mc/seam/vmap), which yields the same key/value pairs in an explorer-chosen order",
+  "enable": "./check builds /verif/mc against /repo's working tree via a go.mod replace directive with -overlay mc/overlay.json (C18: -tags vsync -overlay mc/overlay18.json; C05: -tags vmap -overlay mc/overlayv.json), all generated by ./check from the working tree",
   "baseline_off_cmd": "cd /repo && GOFLAGS=-mod=mod go test -json -vet=off -count=1 -timeout 25m ./...",
   "source_commits": [],
   "add_only": True,
